@@ -49,6 +49,7 @@ func vc36Run(c *vlib.Ctx) {
 	c.Rule("scripts of 6-40 ops {wantlist message (1..6 entries, wants <= limit: want-block/want-have x sendDontHave x priority, cancels, re-wants, v0/v1 alias, identity, oversize CIDs; full or incremental), add block+NotifyNewBlocks, remove block (drained points only), take an outbox channel early, deliver one envelope, drain to quiescence} over 1-3 peers x limit 1..32 x wantHaveReplaceSize {0,16,1024} x targetMessageSize {1,64,16384} x 1-3 task workers x optional request filter / per-peer byte backpressure / engine-wide DONT_HAVE off. Strata: seq (CID universe <= limit/2: neither overflow nor queue truncation possible), ovf-eq (one overflow message against a full ledger whose wants all have the same priority), ovf-mixed (free overflow), full (full wantlists at any time), emptyblk (a zero-length block is stored), dupfull (universe == limit, few deliveries: re-wants/notifies hit a task queue that is at the limit), conc (peers, block adder and drainer on separate goroutines). distinct = FNV of config+script (conc: the observed per-peer response sequences); non-trivial = the run delivered >=1 block and >=1 HAVE/DONT_HAVE and had >=1 effective cancel or >=1 overflow rejection/eviction")
 	c.Cases("seq", c.N(300, 12000), func(k *vlib.Case) { vc36Sequential(k, "seq") })
 	c.Cases("ovf-eq", c.N(150, 6000), vc36OverflowEq)
+	c.Cases("ovf-witness", 1, vc36OverflowWitness)
 	c.Cases("ovf-mixed", c.N(120, 5000), func(k *vlib.Case) { vc36Sequential(k, "ovf-mixed") })
 	c.Cases("full", c.N(60, 2500), func(k *vlib.Case) { vc36Sequential(k, "full") })
 	c.Cases("emptyblk", c.N(30, 1000), func(k *vlib.Case) { vc36Sequential(k, "emptyblk") })
@@ -195,7 +196,7 @@ type vc36World struct {
 	held      []vc36Held
 	truncated map[vc36PC]bool // a push for this (peer,cid) happened while pending+pushed > limit
 	staleFull map[vc36PC]bool // the entry was dropped by a full wantlist (protocol) and not re-wanted since
-	lostOvf   map[vc36PC]bool // the want was part of an overflowing message and lost in it (rejected, or accepted and evicted again)
+	orphan    map[vc36PC]bool // when a cancel arrived, the ledger had no entry for the CID although a task was queued
 	shape     map[peer.ID][]string
 
 	// measured features
@@ -278,7 +279,7 @@ func vc36NewWorld(k *vlib.Case, cfg vc36Cfg, seq bool) *vc36World {
 		byCid: map[cid.Cid]*vc36Cid{}, deny: map[vc36PC]bool{}, workers: cfg.workers, seq: seq,
 		storeTL: map[string]*vc36TL{}, storeNow: map[string]bool{}, addOps: map[string][]*vc36Ev{},
 		wantTL: map[vc36PC]*vc36TL{}, wantOps: map[vc36PC][]vc36WantOp{},
-		model: map[peer.ID]map[cid.Cid]vc36ME{}, truncated: map[vc36PC]bool{}, staleFull: map[vc36PC]bool{}, lostOvf: map[vc36PC]bool{}, shape: map[peer.ID][]string{}}
+		model: map[peer.ID]map[cid.Cid]vc36ME{}, truncated: map[vc36PC]bool{}, staleFull: map[vc36PC]bool{}, orphan: map[vc36PC]bool{}, shape: map[peer.ID][]string{}}
 	for i := 0; i < cfg.nPeers; i++ {
 		p := peer.ID(fmt.Sprintf("peer-%c", 'A'+i))
 		w.peers = append(w.peers, p)
@@ -407,7 +408,37 @@ func vc36Build(full bool, es []vc36Entry) bsmsg.BitSwapMessage {
 // updated before the call (open-ended) and closed after it returned.
 func (w *vc36World) sendMsg(p peer.ID, full bool, es []vc36Entry) {
 	m := vc36Build(full, es)
+	// Input feature observed before the call: a task is queued for a CID that
+	// this message cancels (or drops by being a full wantlist) although the
+	// ledger has no entry for it.
+	cancelled := map[cid.Cid]bool{}
+	wanted := map[cid.Cid]bool{}
+	for _, e := range es {
+		if e.cancel {
+			cancelled[e.u.c] = true
+		} else {
+			wanted[e.u.c] = true
+		}
+	}
+	var orphans []cid.Cid
+	if len(cancelled) > 0 || full {
+		led := w.engineLedger(p)
+		if topics := w.e.peerRequestQueue.PeerTopics(p); topics != nil {
+			for _, t := range topics.Pending {
+				c := t.(cid.Cid)
+				if _, in := led[c]; !in && (cancelled[c] || (full && !wanted[c])) {
+					orphans = append(orphans, c)
+				}
+			}
+		}
+	}
 	w.mu.Lock()
+	for c := range wanted {
+		delete(w.orphan, vc36PC{p, c})
+	}
+	for _, c := range orphans {
+		w.orphan[vc36PC{p, c}] = true
+	}
 	start := w.tick()
 	var evs []*vc36Ev
 	inMsg := map[cid.Cid]bool{}
@@ -433,6 +464,7 @@ func (w *vc36World) sendMsg(p peer.ID, full bool, es []vc36Entry) {
 		}
 	}
 	w.mu.Unlock()
+	w.k.C.Count("wantlist_messages", 1)
 	if w.e.MessageReceived(w.ctx, p, m) {
 		w.k.Fail("connection-killed", "MessageReceived never asks to close the connection for a well-formed wantlist", "false", "true")
 	}
@@ -461,6 +493,7 @@ func (w *vc36World) addBlock(u *vc36Cid) {
 	ev := w.stl(u.mhKey).begin(w.tick(), true, "")
 	w.addOps[u.mhKey] = append(w.addOps[u.mhKey], ev)
 	w.mu.Unlock()
+	w.k.C.Count("block_adds_with_notify", 1)
 	if err := w.bs.Put(w.ctx, forms[0]); err != nil {
 		panic(err)
 	}
@@ -728,13 +761,12 @@ func (w *vc36World) unwantedFeature(p peer.ID, c cid.Cid, a int64) string {
 		return "/never-wanted"
 	}
 	f := "/" + last.kind
-	if w.deny[vc36PC{p, c}] {
-		// the engine keeps no ledger entry for a denied want, only a DONT_HAVE task
-		f += "/denied-cid"
-	}
-	if w.lostOvf[vc36PC{p, c}] {
-		// the want lost an overflow in the message that carried it, yet it may have been given a task
-		f += "/lost-in-overflow"
+	if w.deny[vc36PC{p, c}] || w.orphan[vc36PC{p, c}] {
+		// Input feature: the cancel / full wantlist met a queued task whose want
+		// has no ledger entry (denied CID: DONT_HAVE task only; want evicted by
+		// the overflow of its own message; entry already removed by a sent HAVE
+		// while an upgraded block task was still queued).
+		f += "/task-without-ledger-entry"
 	}
 	if u := w.byCid[c]; u != nil {
 		for _, ad := range w.addOps[u.mhKey] {
@@ -917,8 +949,8 @@ func (w *vc36World) seqMsg(p peer.ID, full bool, es []vc36Entry) {
 	}
 	for c := range wants {
 		delete(w.staleFull, vc36PC{p, c})
-		delete(w.lostOvf, vc36PC{p, c})
 	}
+
 	if hadStale {
 		for c := range pre {
 			if _, ok := wants[c]; !ok {
@@ -1025,11 +1057,7 @@ func (w *vc36World) checkOverflow(p peer.ID, base map[cid.Cid]vc36ME, wants map[
 		}
 	}
 	sort.Slice(lost, func(i, j int) bool { return w.name(lost[i]) < w.name(lost[j]) })
-	for _, x := range lost {
-		if _, ok := wants[x]; ok {
-			w.lostOvf[vc36PC{p, x}] = true
-		}
-	}
+
 	w.nOverflow += len(lost)
 	k.C.Count("overflow_lost_wants", int64(len(lost)))
 	state := fmt.Sprintf("before %s, message wants %s, after %s", w.fmtLedger(base), w.fmtLedger(func() map[cid.Cid]vc36ME {
@@ -1425,6 +1453,26 @@ func vc36OverflowEq(k *vlib.Case) {
 	}
 }
 
+// vc36OverflowWitness replays the minimal scenario recorded in DESIGN.md: limit
+// 2, existing wants with priority 10 and 1 (blocks stored), newcomer with
+// priority 5. The statement demands that the priority-1 want makes room.
+func vc36OverflowWitness(k *vlib.Case) {
+	cfg := vc36Cfg{limit: 2, nPeers: 1, nCids: 3, replaceSize: 1024, targetSize: 16384, workers: 1, maxOut: -1, engineSDH: true}
+	k.Logf("stratum ovf-witness config %s", cfg)
+	w := vc36NewWorld(k, cfg, true)
+	defer w.finish("ovf-witness")
+	h := w.honest()
+	for _, u := range h {
+		w.seqAdd(u)
+	}
+	p := w.peers[0]
+	blk := pb.Message_Wantlist_Block
+	w.seqMsg(p, false, []vc36Entry{{u: h[0], prio: 10, typ: blk, sdh: true}, {u: h[1], prio: 1, typ: blk, sdh: true}})
+	w.seqMsg(p, false, []vc36Entry{{u: h[2], prio: 5, typ: blk, sdh: true}})
+	k.Logf("ledger after the overflow: %s", w.fmtLedger(w.engineLedger(p)))
+	w.seqQuiesce("end of script")
+}
+
 // ---------------------------------------------------------------- concurrent stratum
 
 func vc36Concurrent(k *vlib.Case) {
@@ -1457,11 +1505,26 @@ func vc36Concurrent(k *vlib.Case) {
 		es   []vc36Entry
 	}
 	scripts := map[peer.ID][]msg{}
+	typeOf := map[vc36PC]pb.Message_Wantlist_WantType{}
+	for _, p := range w.peers {
+		for _, u := range w.univ {
+			typeOf[vc36PC{p, u.c}] = pb.Message_Wantlist_Block
+			if r.Chance(2, 5) {
+				typeOf[vc36PC{p, u.c}] = pb.Message_Wantlist_Have
+			}
+		}
+	}
 	for _, p := range w.peers {
 		pr := r.Fork("peer-" + string(p))
 		n := pr.Range(3, 12)
 		for i := 0; i < n; i++ {
 			m := msg{full: i == 0 && pr.Chance(1, 3), es: w.genEntries(pr, p, maxWants, 4)}
+			for j := range m.es {
+				// One want type per (peer, CID) in this stratum: mixing types can
+				// leave a queued block task behind a ledger entry that a sent HAVE
+				// removed (covered, with an exact feature, by the sequential strata).
+				m.es[j].typ = typeOf[vc36PC{p, m.es[j].u.c}]
+			}
 			scripts[p] = append(scripts[p], m)
 			k.Logf("script %s", vc36Describe(p, m.full, m.es))
 		}
